@@ -321,7 +321,7 @@ pub fn close_checked(ctx: &mut Ctx, w: &World, stage: Stage, zero: bool) -> Opti
     let mb = wire::ser(&cm);
     let (cb_v, mb_v) = (u64_at(&mb, 168), u64_at(&mb, 160));
     let mut cidb = [0u8; 32]; cidb.copy_from_slice(&mb[96..128]);
-    let cid_s = zkabacus_crypto::verif_hooks::channel_id_to_scalar(wire::de(&cidb).unwrap());
+    let cid_s = cid_scalar(&cidb);
     let (sig, cs) = cm.into_parts();
     let ok = matches!(w.merchant.check_close_signature(sig, &cs), Verification::Verified);
     let mut reals = vec![Real::V("closing".into())];
@@ -418,7 +418,7 @@ pub fn run_history(ctx: &mut Ctx, w: &World, w2: &World, cfg: &HistCfg) -> bool 
             }
         }
     }
-    let mut degenerate = false;
+    let mut est_zero = false;
     if cfg.close_tag_draws {
         match ctx.prng.gen_range(0..6) {
             0 => { ctx.forced_next = vec![CLOSE_SCALAR]; ctx.count("degenerate:close-tag-drawn-at-establish"); }
@@ -428,7 +428,7 @@ pub fn run_history(ctx: &mut Ctx, w: &World, w2: &World, cfg: &HistCfg) -> bool 
                 let mut f: Vec<Scalar> = (0..k).map(|_| nonzero(&mut ctx.prng)).collect();
                 f.push(Scalar::zero());
                 ctx.forced_next = f;
-                degenerate = true;
+                est_zero = true;
                 ctx.count("degenerate:zero-draw-at-establish");
             }
             _ => {}
@@ -436,7 +436,7 @@ pub fn run_history(ctx: &mut Ctx, w: &World, w2: &World, cfg: &HistCfg) -> bool 
     }
     let run = match establish_customer(ctx, w, &a) { Some(r) => r, None => return false };
     let mut h = Hist { w, w2, a: a.clone(), stage: None, ledger: (a.cb as i128, a.mb as i128), disclosed: vec![], faults_max: cfg.faults_max, restore: cfg.restore, recorded, failed: false };
-    let out = match initialize_check(ctx, w, &a, &run.d, if degenerate { None } else { Some(true) }, if degenerate { "degenerate-draw" } else { "honest" }) { Some(o) => o, None => return false };
+    let out = match initialize_check(ctx, w, &a, &run.d, if est_zero { None } else { Some(true) }, if est_zero { "degenerate-draw" } else { "honest" }) { Some(o) => o, None => return false };
     let (_closing, vbs) = match out.accepted { Some(x) => x, None => return false };
     let u = match out.u { Some(u) => u, None => return false };
     let (st_com, cl_com) = (run.d.st.c, run.d.cl.c);
@@ -470,6 +470,7 @@ pub fn run_history(ctx: &mut Ctx, w: &World, w2: &World, cfg: &HistCfg) -> bool 
     if h.reply_step(ctx, "activate", honest, st_com, cl_com, &apply_activate, Some(&zero_activate)).is_none() { return false; }
     h.close_probe(ctx, h.ledger);
     // payments
+    let mut zero_draw_used = est_zero;
     for _ in 0..cfg.payments {
         let (cb, mb) = h.ledger;
         let amount = if cfg.valid_bias && ctx.prng.gen_range(0..3) != 0 { crate::props::c02::valid_amount(ctx, cb as u64, mb as u64) } else { boundary_amount(ctx, cb, mb) };
@@ -506,7 +507,10 @@ pub fn run_history(ctx: &mut Ctx, w: &World, w2: &World, cfg: &HistCfg) -> bool 
         if cfg.close_tag_draws {
             match ctx.prng.gen_range(0..6) {
                 0 | 1 => { ctx.forced_next = vec![CLOSE_SCALAR]; ctx.count("degenerate:close-tag-drawn-at-start"); }
-                2 | 3 => {
+                // at most one zero draw per history: two zero draws at the revocation-secret position would give two
+                // states the same (zero) secret and hence the same lock — not an event the statement covers
+                2 | 3 if !zero_draw_used => {
+                    zero_draw_used = true;
                     // one scalar draw of Ready::start is zero (position uniform over the ~95 draws)
                     let k = ctx.prng.gen_range(0..100);
                     let mut f: Vec<Scalar> = (0..k).map(|_| nonzero(&mut ctx.prng)).collect();
